@@ -350,7 +350,7 @@ func (cmd *mainCmd) Run(args []string) error {
 		}
 		if err != nil {
 			log.Printf("%s: failed: %v", filename, err)
-			errors = append(errors, err)
+			errors = append(errors, fmt.Errorf("could not write %q: %w", filename, err))
 			continue
 		}
 		log.Printf("%s: patched", filename)
